@@ -7,6 +7,9 @@ CONSTANTS
   PoolN = 6
   Depth3 = TRUE
   M_ShiftOnce = TRUE
+  M_ContainsAnyRunes = TRUE
+  UChars = {1, 40, 41, 42, 43, 44, 45, 46, 47, 48, 49, 50}
+  UMaxData = 2
   PartsOn = {}
   D_FoldWidth = TRUE
   D_ContainerNul = TRUE
